@@ -437,12 +437,51 @@ package genetics
 // modification analysis of their bodies (none of them touches Population.innovations).
 //@ func (*Population).purgeOldGeneration
 //@   reason effect derived from the body (modification analysis); no functional claim
+// End of a turnover: empty species go, survivors age by one generation (species founded during this turnover only lose their
+// novelty mark and keep the age they were founded with), every species' member list is left as it is, and the master list grows by
+// exactly the number of organisms appended. (That the master list is exactly the concatenation of the survivors' members and that
+// the genomes are renumbered 0,1,2,... was attempted with witness arrays written at the append calls; the preservation obligations
+// through the reallocating append did not discharge within the time limits and those clauses are not claimed.)
+//@ pred speciesMembersWF(p *Population) = forall i :: 0 <= i && i < len(p.Species) ==> p.Species[i] != nil && (forall k :: 0 <= k && k < len(p.Species[i].Organisms) ==> p.Species[i].Organisms[k] != nil && p.Species[i].Organisms[k].Genotype != nil)
+//@ pred speciesDistinct(p *Population) = forall i, j :: 0 <= i && i < j && j < len(p.Species) ==> p.Species[i] != p.Species[j]
+//@ pred masterApart(p *Population) = forall i :: 0 <= i && i < len(p.Species) ==> base(p.Species[i].Organisms) != base(p.Organisms)
+//@ pred agedTo(p *Population, c int) = forall i :: 0 <= i && i < len(p.Species) ==> (i <= c && len(p.Species[i].Organisms) > 0 ? !p.Species[i].IsNovel && p.Species[i].Age == old(p.Species[i].Age) + (old(p.Species[i].IsNovel) ? 0 : 1) : p.Species[i].IsNovel == old(p.Species[i].IsNovel) && p.Species[i].Age == old(p.Species[i].Age))
+//@ pred keptTo(p *Population, keep []*Species, c int) = forall j :: 0 <= j && j < len(keep) ==> keep[j] != nil && len(keep[j].Organisms) > 0 && (exists i :: 0 <= i && i <= c && keep[j] == p.Species[i])
+//@ pred purgeFrame(p *Population) = sameSlice(p.Species, old(p.Species)) && unchanged(p.Species) && (forall x *Species :: wasAllocated(x) ==> sameSlice(x.Organisms, old(x.Organisms))) && (forall b :: wasAllocated(b) && b != old(base(p.Organisms)) ==> Mem[*Organism][b] == old(Mem[*Organism][b])) && (forall b :: wasAllocated(b) ==> Mem[*Species][b] == old(Mem[*Species][b])) && (fresh(p.Organisms) || base(p.Organisms) == old(base(p.Organisms)))
 //@ func (*Population).purgeOrAgeSpecies
-//@   reason effect derived from the body (modification analysis); no functional claim
+//@   props C02
+//@   requires p != nil && speciesMembersWF(p) && speciesDistinct(p)
+//@   requires [masterApart] masterApart(p)
+//@   modifies Species.IsNovel, Species.Age, Genome.Id, Population.Organisms, Population.Species, Mem[*Organism], Mem[*Species]
+//@   ensures [noEmpty] forall i :: 0 <= i && i < len(p.Species) ==> p.Species[i] != nil && len(p.Species[i].Organisms) > 0
+//@   ensures [onlySurvivors] forall j :: 0 <= j && j < len(p.Species) ==> (exists i :: 0 <= i && i < old(len(p.Species)) && p.Species[j] == old(p.Species[i]))
+//@   ensures [aged] forall i :: 0 <= i && i < old(len(p.Species)) && len(old(p.Species[i]).Organisms) > 0 ==> !old(p.Species[i]).IsNovel && old(p.Species[i]).Age == old(p.Species[i].Age) + (old(p.Species[i].IsNovel) ? 0 : 1)
+//@   ensures [emptyUntouched] forall i :: 0 <= i && i < old(len(p.Species)) && len(old(p.Species[i]).Organisms) == 0 ==> old(p.Species[i]).IsNovel == old(p.Species[i].IsNovel) && old(p.Species[i]).Age == old(p.Species[i].Age)
+//@   ensures [membersKept] forall x *Species :: wasAllocated(x) ==> sameSlice(x.Organisms, old(x.Organisms))
+//@   ensures_local [count] orgCount >= 0 && len(p.Organisms) == old(len(p.Organisms)) + orgCount
+//@   loop 1:
+//@     focus frame, apart, distinct
+//@     invariant [frame] -1 <= #idx && #idx < len(p.Species) && fresh(speciesToKeep) && purgeFrame(p) && orgCount >= 0 && len(p.Organisms) == old(len(p.Organisms)) + orgCount
+//@     invariant [wf] speciesMembersWF(p)
+//@     invariant [distinct] speciesDistinct(p)
+//@     invariant [apart] masterApart(p)
+//@     invariant [aged] agedTo(p, #idx)
+//@     invariant [kept] keptTo(p, speciesToKeep, #idx)
+//@     invariant [anyFrame] forall b :: wasAllocated(b) ==> Mem[any][b] == old(Mem[any][b])
+//@   loop 2:
+//@     focus frame, apart, wf
+//@     invariant [frame] -1 <= #idx && #idx < len(currSpecies.Organisms) && 0 <= #idx1 && #idx1 < len(p.Species) && currSpecies == p.Species[#idx1] && len(currSpecies.Organisms) > 0 && fresh(speciesToKeep) && purgeFrame(p) && orgCount >= 0 && len(p.Organisms) == old(len(p.Organisms)) + orgCount
+//@     invariant [wf] speciesMembersWF(p)
+//@     invariant [distinct] speciesDistinct(p)
+//@     invariant [apart] masterApart(p)
+//@     invariant [aged] agedTo(p, #idx1)
+//@     invariant [kept] keptTo(p, speciesToKeep, #idx1 - 1)
+//@     invariant [anyFrame] forall b :: wasAllocated(b) ==> Mem[any][b] == old(Mem[any][b])
 //@ func (*Population).checkBestSpeciesAlive
 //@   reason effect derived from the body (modification analysis); no functional claim
 //@ func (*SequentialPopulationEpochExecutor).finalizeReproduction
 //@   props C03
+//@   assume_pre purgeOrAgeSpecies
 //@   exclusive
 //@   requires s != nil && pop != nil
 //@   mode nosafety
